@@ -143,6 +143,8 @@ def check_main(prop, tier, engine, engine_name, families, level, rule, assumptio
                                 'marker': False, 'nsub': 0}],
                       'ops': [{'op': 'decode', 'c': 0, 'm': 0, 'wire': True, 'ive': False}]}
                      for r in pinfo.get('_all_rejected', [])[:24]]
+    if hasattr(main_engine, 'set_rejected'):
+        main_engine.set_rejected(pinfo.get('_all_rejected', []))
     pinfo.pop('_all_rejected', None)
     if adm_plans:
         eng = engine_module(adm_plans[0]['engine'])
